@@ -106,6 +106,7 @@ pub fn rich_scheme(rng: &mut Rng, max_depth: u16) -> SchemeSpec {
         funcs,
         lists,
         nil_ne: rng.chance(2, 3),
+        route: rng.below(4) as u8,
         max_depth,
         star_limit: None,
     }
@@ -595,6 +596,12 @@ impl<'a> G<'a> {
                 self.note_field(i);
             }
             let rhs = self.op_rhs(Type::Bytes);
+            if self.rng.chance(1, 2) {
+                // return type (Int) differs from the mapped element type (Bytes)
+                let rhs = self.op_rhs(Type::Int);
+                self.stats.push("call.mapped.extra.len2");
+                return Some(format!("len2({o}{arg},{}{extra}{o2})[*]{rhs}", self.ows()));
+            }
             self.stats.push("call.mapped.extra");
             return Some(format!("opt2({o}{arg},{}{},{}{extra}{o2})[*]{rhs}", self.ows(), self.int_lit(v), self.ows()));
         }
@@ -827,6 +834,26 @@ impl<'a> G<'a> {
             3 => {
                 let (arg, _) = self.path_to(Type::Bytes, 0, true).unwrap();
                 self.stats.push("value.mapped");
+                if self.rng.chance(1, 3) {
+                    // mapped call with an extra argument: cheap (field / literal: inline route)
+                    // or expensive (nested call: memoised route); the mapped argument may be
+                    // absent, and the result type differs from the element type
+                    self.stats.push("value.mapped.extra");
+                    let (extra, used) = match self.rng.below(4) {
+                        0 => ("lower(y)".to_string(), Some("y")),
+                        1 => ("lower(oy)".to_string(), Some("oy")),
+                        2 => ("oy".to_string(), Some("oy")),
+                        _ => ("\"ab\"".to_string(), None),
+                    };
+                    if let Some(i) = used.and_then(|n| self.spec.field_index(n)) {
+                        self.note_field(i);
+                    }
+                    return if self.rng.chance(1, 2) {
+                        format!("len2({o}{arg}, {extra})")
+                    } else {
+                        format!("len2({o}{arg}, {extra})[{}]", self.rng.below(3))
+                    };
+                }
                 let f = *self.rng.pick(&["len", "lower", "dropempty"]);
                 if self.rng.chance(1, 2) { format!("{f}({o}{arg})") } else { format!("{f}({o}{arg})[{}]", self.rng.below(3)) }
             }
